@@ -61,6 +61,7 @@ func VerifC18_FstreeBuildPath() {
 	fst := &FSTree{name: "t", basePath: root}
 	key := rt.StrN("key", 0, keyLen())
 	p, err := fst.buildFilePath(key, true)
+	rt.ObserveBool("accepted", err == nil)
 	if err == nil {
 		rt.Assert(inside(root, p), "fstree/built-path-inside-root")
 		rt.Reach("fstree-path-ok")
